@@ -124,3 +124,23 @@ Definition alphabet8 : list byte := [x61; x62; x41; x42; x30; x31; x5f; x2e].   
 
 Lemma side_conditions_exact_len5 : all_strings alphabet8 5 [] side_conditions_exact = true.
 Proof. vm_compute. reflexivity. Qed.
+
+(* ---------------------------------------------------------------- .rstrip("_") never changes a to_dict key *)
+Lemma no_us_lowercase_first x : forallb (fun c => negb (is_us c)) (lowercase_first x) = forallb (fun c => negb (is_us c)) x.
+Proof. destruct x as [|c r]; [reflexivity|]. cbn [lowercase_first forallb]. rewrite is_us_to_lower. reflexivity. Qed.
+
+Lemma camel_key_is_camel_case f : camel_key f = camel_case f.
+Proof.
+  unfold camel_key. apply rstrip_us_no_us. unfold camel_case. rewrite no_us_lowercase_first, pascal_lws.
+  apply no_us_concat_cap, words_lwords.
+Qed.
+
+Lemma snake_key_is_snake_case f : snake_key f = snake_case f.
+Proof. apply snake_key_snake. Qed.
+
+(* generated field names that are key_safe have pairwise distinct camelCase keys *)
+Lemma camel_keys_distinct s1 s2 : key_safe s1 = true -> key_safe s2 = true ->
+  camel_key (safe_snake_case s1) = camel_key (safe_snake_case s2) -> safe_snake_case s1 = safe_snake_case s2.
+Proof.
+  intros K1 K2 E. rewrite <- (camel_key_back s1 K1), <- (camel_key_back s2 K2), E. reflexivity.
+Qed.
